@@ -175,8 +175,14 @@ class AugmentedNodeMixin:
                 f"there is already an augmented-node."
             )
 
+        # validate the arguments before anything is changed: a failure further down would leave
+        # the S-node in the graph without a registry entry
+        new_domains = set(domain_ids)
+        if None in node_changes:
+            raise ValueError("None cannot be a node")
+
         # add domains
-        self.domains.update(domain_ids)
+        self.domains.update(new_domains)
 
         # add a new S-node into the graph
         s_node_idx = len(self.s_nodes)
